@@ -549,11 +549,22 @@ pub fn run(args: &[String]) -> i32 {
         let _ = ledger::drain_events();
         ledger::track(true);
         let r = catch_unwind(AssertUnwindSafe(|| {
+            // what the iterator really yields (the Vec model of C01: exactly these items are appended)
+            let mut exp: Vec<u8> = Vec::new();
+            let mut it = LyingIter { n, lower, upper, panic_at: usize::MAX };
+            while let Some(x) = it.next() {
+                exp.push(x);
+            }
             let mut m = BytesMut::with_capacity(2);
             m.extend(LyingIter { n, lower, upper, panic_at: usize::MAX });
+            // a destination that held other data before: stale bytes in its spare capacity
+            let mut m2 = BytesMut::from(&b"the quick brown fox jumps over the lazy dog; pack my box with five dozen liquor jugs"[..]);
+            m2.clear();
+            m2.extend(LyingIter { n, lower, upper, panic_at: usize::MAX });
             let f: BytesMut = LyingIter { n, lower, upper, panic_at: usize::MAX }.collect();
             let b: Bytes = LyingIter { n, lower, upper, panic_at: usize::MAX }.collect();
-            format!("len {} {} {}", m.len(), f.len(), b.len())
+            let same = m[..] == exp[..] && m2[..] == exp[..] && f[..] == exp[..] && b[..] == exp[..];
+            format!("len {} {} {} {} same={}", m.len(), m2.len(), f.len(), b.len(), same as u8)
         }));
         ledger::track(false);
         let r2 = r.as_ref().map(|s| s.clone()).map_err(|_| ());
